@@ -85,6 +85,12 @@ func discoverPools(t *Tree) []poolInfo {
 // unconditional path (no controlling condition other than nil/ok tests of the object itself and range loops).
 func fieldsAssigned(fn *ssa.Function, isObj func(v ssa.Value) bool, st *types.Struct) map[string]bool {
 	got := map[string]bool{}
+	carried := map[string]bool{}
+	defer func() {
+		for k := range carried {
+			delete(got, k)
+		}
+	}()
 	allInstrs(fn, func(in ssa.Instruction) {
 		s, ok := in.(*ssa.Store)
 		if !ok {
@@ -93,10 +99,14 @@ func fieldsAssigned(fn *ssa.Function, isObj func(v ssa.Value) bool, st *types.St
 		uncond := true
 		for _, ec := range controlling(s.Block()) {
 			d := ec.String()
-			if strings.Contains(d, "nil") || strings.HasSuffix(condStr(ec.Cond), "#1") {
+			// a nil / ok test of the pooled object itself is not a condition on the reset …
+			if bo, ok := ec.Cond.(*ssa.BinOp); ok && isNilConst(bo.Y) && isObj(bo.X) {
 				continue
 			}
-			// leaving a range loop is not a condition on the assignment
+			if strings.HasSuffix(condStr(ec.Cond), "#1") {
+				continue
+			}
+			// … nor is leaving a range loop
 			if ex, ok := ec.Cond.(*ssa.Extract); ok {
 				if _, isNext := ex.Tuple.(*ssa.Next); isNext && !ec.Pol {
 					continue
@@ -105,26 +115,54 @@ func fieldsAssigned(fn *ssa.Function, isObj func(v ssa.Value) bool, st *types.St
 			if strings.Contains(d, "(phi:") && strings.Contains(d, "+1) < len(") && !ec.Pol {
 				continue
 			}
+			// but a test of one of its fields (`if ctx.stackHeader == nil`) is: the old value survives on the other arm
 			uncond = false
 		}
 		if !uncond {
 			return
 		}
 		if fa, ok := s.Addr.(*ssa.FieldAddr); ok && isObj(fa.X) {
+			if isObj(rootOf(s.Val)) {
+				carried[fieldName(fa)] = true // re-stores (part of) the object's own old state: not a reset
+				return
+			}
 			got[fieldName(fa)] = true
 			return
 		}
-		if isObj(s.Addr) { // whole-struct store: *obj = T{}
+		if isObj(s.Addr) && st != nil { // whole-struct store: *obj = T{…}
+			kept := map[string]bool{}
+			// fields of the literal that are filled from the object itself are carried over, not reset
+			if ld, ok := s.Val.(*ssa.UnOp); ok {
+				if a, ok := ld.X.(*ssa.Alloc); ok {
+					for _, ref := range *a.Referrers() {
+						if fa, ok := ref.(*ssa.FieldAddr); ok {
+							for _, rr := range *fa.Referrers() {
+								if fs, ok := rr.(*ssa.Store); ok && fs.Addr == ssa.Value(fa) && isObj(rootOf(fs.Val)) {
+									kept[fieldName(fa)] = true
+								}
+							}
+						}
+					}
+				}
+			}
 			for i := 0; i < st.NumFields(); i++ {
-				got[st.Field(i).Name()] = true
+				if !kept[st.Field(i).Name()] {
+					got[st.Field(i).Name()] = true
+				}
 			}
 		}
 	})
 	// method calls x.F.Reset() count as a reset of F
 	allInstrs(fn, func(in ssa.Instruction) {
-		if call, ok := in.(*ssa.Call); ok && call.Call.StaticCallee() != nil && call.Call.StaticCallee().Name() == "Reset" && len(call.Call.Args) == 1 {
+		if call, ok := in.(*ssa.Call); ok && call.Call.StaticCallee() != nil && (call.Call.StaticCallee().Name() == "Reset" || call.Call.StaticCallee().Name() == "Clear") && len(call.Call.Args) == 1 {
 			if fa, ok := call.Call.Args[0].(*ssa.FieldAddr); ok && isObj(fa.X) {
 				got[fieldName(fa)] = true
+			}
+			// x.F.Clear() on the loaded field value
+			if ld, ok := call.Call.Args[0].(*ssa.UnOp); ok {
+				if fa, ok := ld.X.(*ssa.FieldAddr); ok && isObj(fa.X) {
+					got[fieldName(fa)] = true
+				}
 			}
 		}
 	})
